@@ -69,6 +69,87 @@ func Craft16(target, free uint64) string {
 	return string(out)
 }
 
+func rotl(x uint64, r int) uint64 { return bits.RotateLeft64(x, r) }
+
+// CraftAround returns prefix + B + tail, where B is a 16-byte block chosen so
+// that the murmur3-x64-64 hash of the whole name equals target. prefix must be
+// a multiple of 16 bytes long, tail shorter than 16 bytes; free selects one of
+// the 2^64 solutions. Verified against the real hash function.
+func CraftAround(prefix, tail []byte, target, free uint64) string {
+	if len(prefix)%16 != 0 || len(tail) >= 16 {
+		panic("gen.CraftAround: bad prefix/tail length")
+	}
+	// forward over the prefix blocks
+	var s1, s2 uint64
+	for i := 0; i+16 <= len(prefix); i += 16 {
+		k1 := binary.LittleEndian.Uint64(prefix[i:])
+		k2 := binary.LittleEndian.Uint64(prefix[i+8:])
+		k1 *= c1
+		k1 = rotl(k1, 31)
+		k1 *= c2
+		s1 ^= k1
+		s1 = rotl(s1, 27)
+		s1 += s2
+		s1 = s1*5 + 0x52dce729
+		k2 *= c2
+		k2 = rotl(k2, 33)
+		k2 *= c1
+		s2 ^= k2
+		s2 = rotl(s2, 31)
+		s2 += s1
+		s2 = s2*5 + 0x38495ab5
+	}
+	total := uint64(len(prefix) + 16 + len(tail))
+	// backward from the target through finalisation
+	b := free
+	a := target - b
+	h1 := unfmix(a)
+	h2 := unfmix(b)
+	h2 -= h1
+	h1 -= h2
+	h1 ^= total
+	h2 ^= total
+	// undo the tail
+	var t [16]byte
+	copy(t[:], tail)
+	if len(tail) > 8 {
+		k2 := binary.LittleEndian.Uint64(t[8:])
+		k2 *= c2
+		k2 = rotl(k2, 33)
+		k2 *= c1
+		h2 ^= k2
+	}
+	if len(tail) > 0 {
+		k1 := binary.LittleEndian.Uint64(t[:8])
+		k1 *= c1
+		k1 = rotl(k1, 31)
+		k1 *= c2
+		h1 ^= k1
+	}
+	// (h1,h2) is the state after block B; invert the block round from state (s1,s2)
+	x2 := (h2 - 0x38495ab5) * modinv(5)
+	x2 -= h1
+	x2 = rotl(x2, -31)
+	x2 ^= s2 // = mix2(k2)
+	y1 := (h1 - 0x52dce729) * modinv(5)
+	y1 -= s2
+	y1 = rotl(y1, -27)
+	y1 ^= s1 // = mix1(k1)
+	k1 := rotl(y1*modinv(c2), -31) * modinv(c1)
+	k2 := rotl(x2*modinv(c1), -33) * modinv(c2)
+	out := make([]byte, 0, int(total))
+	out = append(out, prefix...)
+	var blk [16]byte
+	binary.LittleEndian.PutUint64(blk[0:], k1)
+	binary.LittleEndian.PutUint64(blk[8:], k2)
+	out = append(out, blk[:]...)
+	out = append(out, tail...)
+	if murmur3.Sum64(out) != target {
+		panic(fmt.Sprintf("gen.CraftAround self-check failed for target %x (prefix %d tail %d)", target, len(prefix), len(tail)))
+	}
+	return string(out)
+}
+
 // SharedPrefixNames returns n distinct 16-byte names whose 64-bit hashes all
 // share their first `shared` bits (0 <= shared <= 63); the first two differ at
 // bit `shared`, so a HAMT consuming lg bits per level is forced to depth
